@@ -6,7 +6,7 @@ CONSTANTS
   HWFallback = FALSE
   ElectAlive = TRUE
   ElectDown = FALSE
-  MaxMsgs = 4
+  MaxMsgs = 3
   MaxElect = 3
   MaxCrash = 0
   MaxIsrOps = 0
